@@ -532,6 +532,48 @@ func c28Engine() *Engine {
 			// (without a background writer nothing drains the channel before the flush)
 			w.Knobs["WriteChannelCommandDepth"] = 1000000
 		}
+		recreated := map[string]bool{}
+		if r.Pct(30) {
+			// a bucket is destroyed and created again under the same key with other
+			// columns while the server keeps running, then written to: the WAL record
+			// of that write must carry the new schema
+			old := w.Buckets[r.Intn(len(w.Buckets))]
+			nb := &Bucket{Sym: old.Sym, TF: old.TF, Attr: old.Attr, Variable: old.Variable}
+			switch r.Intn(3) {
+			case 0: // same names, other types
+				for _, c := range old.Cols {
+					t := c.Typ
+					if c.Name != "Id" {
+						t = allTypes[r.Intn(len(allTypes))]
+					}
+					nb.Cols = append(nb.Cols, Col{Name: c.Name, Typ: t})
+				}
+			case 1: // other names and count
+				nb.Cols = []Col{{Name: "Id", Typ: "i8"}}
+				for j, nx := 0, r.Intn(5); j < nx; j++ {
+					nb.Cols = append(nb.Cols, Col{Name: fmt.Sprintf("N%d", j), Typ: allTypes[r.Intn(len(allTypes))]})
+				}
+			default: // same columns, rotated order
+				k := 1 + r.Intn(len(old.Cols))
+				nb.Cols = append(append([]Col{}, old.Cols[k%len(old.Cols):]...), old.Cols[:k%len(old.Cols)]...)
+			}
+			w.Ops = append(w.Ops, &WOp{Kind: "destroy", Key: old.Key()}, &WOp{Kind: "create", B: nb})
+			base := time.Date(2021, 7, 1, 0, 0, 0, 0, time.UTC).UnixNano()
+			for k, nw := 0, 1+r.Intn(3); k < nw; k++ {
+				var recs []Rec
+				for i, nr := 0, 1+r.Intn(4); i < nr; i++ {
+					recs = append(recs, Rec{T: base + int64(k*10+i)*int64(nb.TFDur()) + int64(r.Intn(1000)), ID: int64(900000 + k*100 + i)})
+				}
+				if !nb.Variable {
+					for i := range recs {
+						recs[i].T = floorDiv(recs[i].T, 1e9) * 1e9
+					}
+				}
+				w.Ops = append(w.Ops, &WOp{Kind: "write", W: []*WriteReq{{Variable: nb.Variable, Parts: []*BucketWrite{{B: nb, Recs: recs}}}}})
+			}
+			recreated[old.Key()] = true
+			res.Count("bucket-recreated-with-other-schema", 1)
+		}
 		res.Runs++
 		lt, _, walPath, model := runWalLifetime(w, res)
 		if lt == nil || walPath == "" {
@@ -581,6 +623,15 @@ func c28Engine() *Engine {
 				res.Evals++
 				for _, wt := range wts {
 					key, b := bucketOfPath(buckets, wt.FilePath)
+					// the schema that counts is the one the bucket had when the request
+					// was issued (a bucket may have been destroyed and created again)
+					if t.req != nil {
+						for _, p := range t.req.Parts {
+							if k2, b2 := bucketOfPath([]*Bucket{p.B}, wt.FilePath); b2 != nil {
+								key, b = k2, b2
+							}
+						}
+					}
 					if b == nil {
 						res.AddViolation(&Violation{Prop: "C28", Class: "decode-path", Sig: "C28|decode-path", Seed: seed,
 							Detail: fmt.Sprintf("transaction group %d decodes to target file %s which is no bucket of the history", ti, clip(wt.FilePath)), Replay: map[string]interface{}{"workload": w.Describe()}})
@@ -631,6 +682,12 @@ func c28Engine() *Engine {
 			}
 			for _, b := range buckets {
 				key := b.Key()
+				if recreated[key] {
+					// the image replays the transactions of the destroyed incarnation into
+					// the new files (Destroy is not logged): not this property's subject
+					res.Count("recreated-bucket-not-compared-after-replay", 1)
+					continue
+				}
 				if _, t := lt.taint[key]; t {
 					continue
 				}
